@@ -1,5 +1,6 @@
 // BUILD: variant=opt
 // C09 -- gridDistance is the true graph distance; local IJ is a consistent partial chart.
+#include <fenv.h>
 #include "mc.h"
 #include "dom.h"
 #include "dgraph.h"
@@ -121,6 +122,20 @@ static void ij_square(uint64_t h, int R) {
             MC_CHECK(spec_valid(c) && spec_res(c) == spec_res(h), "localIjToCell(%" PRIx64 ",(%d,%d)) = %" PRIx64 " is not a valid cell of the origin's resolution", h, ij.i, ij.j, c);
             if (cellToLocalIj(h, c, 0, &back) == 0)
                 MC_CHECK(back.i == ij.i && back.j == ij.j, "localIjToCell(%" PRIx64 ",(%d,%d)) = %" PRIx64 " but cellToLocalIj of that cell is (%d,%d)", h, ij.i, ij.j, c, back.i, back.j);
+            // the caller's floating-point rounding mode is environment, like errno: these integer-valued functions must not depend on it
+            if (((di ^ dj) & 3) == 0) {
+                static const int modes[3] = {FE_UPWARD, FE_DOWNWARD, FE_TOWARDZERO};
+                for (int m = 0; m < 3; m++) {
+                    uint64_t c2 = CANARY;
+                    CoordIJ b2 = {0, 0};
+                    fesetround(modes[m]);
+                    H3Error e2 = localIjToCell(h, &ij, 0, &c2), e3 = cellToLocalIj(h, c, 0, &b2);
+                    fesetround(FE_TONEAREST);
+                    mc_trans(2);
+                    MC_CHECK(e2 == 0 && c2 == c, "localIjToCell(%" PRIx64 ",(%d,%d)) = %d,%" PRIx64 " under rounding mode %d but %" PRIx64 " under round-to-nearest", h, ij.i, ij.j, e2, c2, modes[m], c);
+                    MC_CHECK(e3 != 0 || (b2.i == ij.i && b2.j == ij.j), "cellToLocalIj(%" PRIx64 ",%" PRIx64 ") = (%d,%d) under rounding mode %d, (%d,%d) expected", h, c, b2.i, b2.j, modes[m], ij.i, ij.j);
+                }
+            }
         }
 }
 static void op_sq(const McArg *a) {
